@@ -11,6 +11,8 @@
 #include "nmtools/array/functional/roll.hpp"
 #include "nmtools/array/functional/expand_dims.hpp"
 #include "nmtools/array/functional/ufuncs/add.hpp"
+#include "nmtools/array/functional/ufuncs/subtract.hpp"
+#include "nmtools/array/functional/flatten.hpp"
 #include "nmtools/array/view/transpose.hpp"
 #include "nmtools/array/view/flip.hpp"
 #include "nmtools/array/view/reshape.hpp"
@@ -18,6 +20,8 @@
 #include "nmtools/array/view/roll.hpp"
 #include "nmtools/array/view/expand_dims.hpp"
 #include "nmtools/array/view/ufuncs/add.hpp"
+#include "nmtools/array/view/ufuncs/subtract.hpp"
+#include "nmtools/array/view/flatten.hpp"
 #include <tuple>
 
 #ifndef MAXD
@@ -163,7 +167,39 @@ static vj::value finish(const std::string& variant, const dyn_t<long>& a, const 
     }
 }
 
+// "tree" cases: f(va(a), vb(b)) with the nested view on either side; variant view = the view itself,
+// extract = the extracted function composition applied to the extracted operands
+template <class V> static vj::value tree_finish(const std::string& variant, const V& v) {
+    if constexpr (meta::is_maybe_v<V>) { if (!static_cast<bool>(v)) { auto n = nothing_res(); n.set("maybe", true); return n; } return tree_finish(variant, *v); }
+    else {
+        if (variant == "view") return project(v);
+        auto f = fn::get_function_composition(v);
+        const auto& ops = fn::get_function_operands(v);
+        return project(fn::apply(f, ops));
+    }
+}
+template <class A, class B> static vj::value tree_op(const std::string& f, const std::string& variant, const A& a, const B& b) {
+    if (f == "add") return tree_finish(variant, view::add(a, b));
+    return tree_finish(variant, view::subtract(a, b));
+}
+template <class A> static vj::value tree_rhs(const vj::value& c, const A& a, const dyn_t<long>& b) {
+    std::string vb = c["args"]["vb"].as_str(), f = c["args"]["f"].as_str(), variant = c["variant"].as_str();
+    if (vb == "id") return tree_op(f, variant, a, b);
+    if (vb == "transpose") return tree_op(f, variant, a, view::transpose(b, nm::None));
+    return tree_op(f, variant, a, view::flatten(b));
+}
+static vj::value tree(const vj::value& c) {
+    auto a = make_leaf<long>(c["shapes"][0].as_vec<long>(), 0); auto b = make_leaf<long>(c["shapes"][1].as_vec<long>(), 1);
+    std::string va = c["args"]["va"].as_str();
+    if (va == "id") return tree_rhs(c, a, b);
+    if (va == "transpose") return tree_rhs(c, view::transpose(a, nm::None), b);
+    return tree_rhs(c, view::flatten(a), b);
+}
+
 static vj::value handle(const vj::value& c) {
+#if !defined(FIRST_IDX) || FIRST_IDX == 0
+    if (c["op"].as_str() == "tree") return tree(c);
+#endif
     std::vector<step_t> st;
     for (size_t i = 0; i < c["prog"].size(); i++) st.push_back(parse_step(c["prog"][i]));
     auto a = make_leaf<long>(c["shapes"][0].as_vec<long>(), 0);
